@@ -20,6 +20,9 @@ package main
 //  H8  the bore of obj.Nut goes through: every head style is built with the
 //      height the internal thread is cut over, and the parts a head is made of
 //      (cylinder, knurl, hexagonal prism) are no taller than that height
+//  H9  wherever obj cuts a thread, the pitch the ISO profile is built with is the
+//      pitch the profile is swept with, and radius and pitch of the profile
+//      come from the same (converted or unconverted) database record
 //
 // Not decided: profile geometry, mating in space for tapered threads.
 
@@ -27,6 +30,7 @@ import (
 	"fmt"
 	"go/token"
 	"go/types"
+	"golang.org/x/tools/go/ssa/ssautil"
 	"math"
 	"math/big"
 	"regexp"
@@ -347,6 +351,7 @@ func checkC18(ctx *Ctx, r *Report, tier string) {
 	r.floor("H4", 4)
 	screwSpec(ctx, r, "H5")
 	checkNutBoreThrough(ctx, r)
+	checkProfilePitchIsScrewPitch(ctx, r)
 	checkISOMating(ctx, r)
 	checkRowsReadOnly(ctx, r)
 	r.floor("H5", 2)
@@ -850,4 +855,91 @@ func checkNutBoreThrough(ctx *Ctx, r *Report) {
 		}
 	}
 	r.floor("H8", 3)
+}
+
+// checkProfilePitchIsScrewPitch (H9): a thread is an ISO profile of some pitch swept along a helix
+// of some pitch; the two are one number. Where a row is converted to millimetres first, taking
+// the radius from the converted record and the pitch from the original (or the profile's pitch
+// from one and the helix pitch from the other) gives, for every inch designation, a profile
+// 25.4 times too fine for its helix: a hair-thin slot instead of a thread, and the part no longer
+// mates. Metric rows are unchanged by the conversion, so nothing in the repository shows it.
+func checkProfilePitchIsScrewPitch(ctx *Ctx, r *Report) {
+	reRec := regexp.MustCompile(`^(.*)\.(Radius|Pitch)$`)
+	n := 0
+	for fn := range ssautil.AllFunctions(ctx.Prog) {
+		if !inModule(fn) || fn.Pkg == nil || !strings.HasSuffix(fn.Pkg.Pkg.Path(), "/obj") || len(fn.Blocks) == 0 || fn.Parent() != nil {
+			continue
+		}
+		calls := false
+		allInstrs(fn, func(_ *ssa.BasicBlock, ins ssa.Instruction) {
+			if c, ok := ins.(*ssa.Call); ok {
+				if g := c.Call.StaticCallee(); g != nil && g.Name() == "ISOThread" {
+					calls = true
+				}
+			}
+		})
+		if !calls {
+			continue
+		}
+		ev := newEvalPkg(ctx, "/obj", "ISOThread", "Screw3D", "HexHead3D", "KnurledHead3D", "Cylinder3D", "Transform3D", "Union3D", "Difference3D", "ChamferedCylinder", "ThreadLookup", "ToMillimetre", "HexRadius", "HexHeight", "Translate3d", "ErrMsg")
+		ev.evalRoot(fn)
+		its := eventsOf(ev, "sdf.ISOThread")
+		scs := eventsOf(ev, "sdf.Screw3D")
+		for k, it := range its {
+			if len(it.Args) < 2 {
+				continue
+			}
+			n++
+			key := fmt.Sprintf("obj.%s|thread#%d", shortFn(fn), k+1)
+			rad, _ := it.Args[0].(*Term)
+			pit, _ := it.Args[1].(*Term)
+			bad := ""
+			if rad == nil || pit == nil {
+				bad = " radius or pitch is not a scalar;"
+			} else {
+				recOf := func(t *Term, field string) map[string]bool {
+					out := map[string]bool{}
+					for _, a := range findSub(t, func(x *Term) bool { return x.Op == "a" }) {
+						if m := reRec.FindStringSubmatch(a.S); m != nil && m[2] == field {
+							out[m[1]] = true
+						}
+					}
+					return out
+				}
+				rr, pr := recOf(rad, "Radius"), recOf(pit, "Pitch")
+				if len(rr) == 1 && len(pr) == 1 {
+					for a := range rr {
+						if !pr[a] {
+							bad += fmt.Sprintf(" the profile's radius is read from %s, its pitch from another record (%s);", shortKey(a, 80), shortKey(tk(pit), 80))
+						}
+					}
+				}
+				// the screw this profile is swept by: the Screw3D call whose pitch should match
+				swept := false
+				for _, sc := range scs {
+					if len(sc.Args) < 5 {
+						continue
+					}
+					sp, _ := sc.Args[3].(*Term)
+					if sp == nil {
+						continue
+					}
+					prs := recOf(sp, "Pitch")
+					if len(prs) == 0 {
+						continue // a screw of another kind (e.g. a knurl)
+					}
+					swept = true
+					if sp.Key() != pit.Key() && len(its) == 1 {
+						bad += fmt.Sprintf(" profile pitch %s, helix pitch %s;", shortKey(tk(pit), 80), shortKey(tk(sp), 80))
+					}
+				}
+				_ = swept
+			}
+			r.check("H9", key, it.Pos, bad == "", "ISOThread(radius, pitch, ...) and Screw3D(..., pitch, starts) use one pitch, radius and pitch come from one record;"+bad)
+		}
+	}
+	if n == 0 {
+		r.undecided("H9", "obj", 0, "no thread construction found in package obj")
+	}
+	r.floor("H9", 1)
 }
